@@ -450,3 +450,181 @@ Example cf_tree_roundtrip_computed :
      | _ => False
      end.
 Proof. vm_compute. repeat split. Qed.
+
+(* ---------------------------------------------------------------------------------------------- *)
+(* the guard of cf_validate is transparent on the load route (non-vacuity of the C01 / C15 / C02 statements) *)
+(* ---------------------------------------------------------------------------------------------- *)
+Section G.
+  Variable orc : oracle.
+
+  Lemma fix_point_of_idem : forall f v, validate_with orc f v = Ok v -> fix_point orc f v = true.
+  Proof. intros f v H. unfold fix_point. rewrite H. apply pyval_eqb_refl. Qed.
+
+  (* what a scalar field stores is plain data *)
+  Lemma plain_forallb_dict : forall d, Forall (fun kv => plain (fst kv) = true /\ plain (snd kv) = true) d ->
+    (fix go (d : list (pyval * pyval)) : bool :=
+       match d with [] => true | (k, v) :: r => plain k && plain v && go r end) d = true.
+  Proof. induction 1 as [|[k v] d [A B] H IH]; [reflexivity|]. cbn in A, B. now rewrite A, B, IH. Qed.
+
+  Lemma validate_good : forall f, has_F13 f = false -> forall x v, plain x = true -> validate_with orc f x = Ok v ->
+    goodb orc f v = true.
+  Proof.
+    induction f; intros HF x v Hp H.
+    all: destruct (pyval_none_dec x) as [->|Hx];
+      [rewrite validate_none in H; match type of H with context [field_req ?g] => destruct (field_req g) eqn:R end;
+       [discriminate|injection H as <-; cbn [goodb]; unfold fix_point; rewrite validate_none, R; reflexivity]|].
+    all: try (assert (Hi : validate_with orc _ v = Ok v) by (eapply validate_idem; [exact HF|exact H])).
+    - cbn [goodb]. rewrite (fix_point_of_idem _ _ Hi), andb_true_r. rewrite v_any in H by exact Hx. now injection H as <-.
+    - cbn [goodb]. rewrite (fix_point_of_idem _ _ Hi), andb_true_r. rewrite v_str in H by exact Hx.
+      apply bind_ok in H as [s [_ H]]. now injection H as <-.
+    - cbn [goodb]. rewrite (fix_point_of_idem _ _ Hi), andb_true_r. rewrite v_int in H by exact Hx.
+      apply int_validate_exact in H as [z [_ [_ ->]]]. reflexivity.
+    - cbn [goodb]. rewrite (fix_point_of_idem _ _ Hi), andb_true_r. rewrite v_float in H by exact Hx.
+      apply float_validate_ok in H as [g [_ [_ ->]]]. reflexivity.
+    - cbn [goodb]. rewrite (fix_point_of_idem _ _ Hi), andb_true_r. rewrite v_bool in H by exact Hx.
+      apply bool_validate_exact in H as [b [_ ->]]. reflexivity.
+    - cbn [goodb]. rewrite (fix_point_of_idem _ _ Hi), andb_true_r.
+      pose proof (validate_sound orc _ _ _ Hp H) as M. unfold meets in M. cbn [sat] in M.
+      destruct M as [[-> _]|[a [-> _]]]; reflexivity.
+    - cbn [goodb]. rewrite (fix_point_of_idem _ _ Hi), andb_true_r.
+      pose proof (validate_sound orc _ _ _ Hp H) as M. unfold meets in M. cbn [sat] in M.
+      destruct M as [[-> _]|[a [p [-> _]]]]; reflexivity.
+    - cbn [goodb]. rewrite (fix_point_of_idem _ _ Hi), andb_true_r.
+      pose proof (validate_sound orc _ _ _ Hp H) as M. unfold meets in M. cbn [sat] in M.
+      destruct M as [[-> _]|[s [-> _]]]; reflexivity.
+    - cbn [goodb]. rewrite (fix_point_of_idem _ _ Hi), andb_true_r.
+      pose proof (validate_sound orc _ _ _ Hp H) as M. unfold meets in M. cbn [sat] in M.
+      destruct M as [[-> _]|[b [-> Hb]]]; [reflexivity|exact Hb].
+    - cbn [goodb]. rewrite (fix_point_of_idem _ _ Hi), andb_true_r.
+      destruct x as [| | | | | |tg l|l|tg d| |]; cbn in H; try discriminate; try congruence.
+      + destruct (req && Net.is_nil l); [discriminate|]. now injection H as <-.
+      + destruct (req && Net.is_nil l); [discriminate|]. injection H as <-. exact Hp.
+    - (* FListT *) cbn [has_F13] in HF.
+      assert (G : forall l, forallb plain l = true ->
+                (if req && Net.is_nil l then Err EValue
+                 else if (0 =? fid + 1) then Ok (PList (fid + 1) l)
+                 else if negb (0 =? 0) then Unmodelled
+                 else do l' <- Fields.map_res (validate_with orc f) l ;; Ok (PList (fid + 1) l')) = Ok v ->
+                goodb orc (FListT fid req f) v = true).
+      { intros l Hl G. destruct (req && Net.is_nil l) eqn:R; [discriminate|].
+        assert (Hne : (0 =? fid + 1) = false) by (apply N.eqb_neq; lia). rewrite Hne in G. cbn [negb N.eqb] in G.
+        apply bind_ok in G as [l' [M G]]. injection G as <-. cbn [goodb]. rewrite N.eqb_refl.
+        rewrite (is_nil_length _ l' l (map_res_length _ _ _ _ _ M)), R. cbn [negb andb].
+        apply map_res_Forall2 in M. rewrite forallb_forall in Hl. clear R H. apply forallb_forall.
+        induction M as [|a b l l' Hab M IHM]; intros y Hy; [destruct Hy|].
+        destruct Hy as [<-|Hy].
+        - apply (IHf HF a b); [apply Hl; now left|exact Hab].
+        - apply IHM; [|exact Hy]. intros z Hz. apply Hl. now right. }
+      destruct x as [| | | | | |tg l|l|tg d| |]; cbn [validate_with] in H; try discriminate; try congruence.
+      + cbn in Hp. apply andb_true_iff in Hp as [Ht Hl]. apply N.eqb_eq in Ht. subst tg. exact (G l Hl H).
+      + exact (G l Hp H).
+    - cbn [goodb]. rewrite (fix_point_of_idem _ _ Hi), andb_true_r.
+      destruct x as [| | | | | |tg l|l|tg d| |]; cbn in H; try discriminate; try congruence.
+      destruct (req && Net.is_nil d); [discriminate|]. now injection H as <-.
+    - (* FDictT *) cbn [has_F13] in HF. apply orb_false_iff in HF as [HF1 HF2].
+      destruct x as [| | | | | |tg l|l|tg d| |]; cbn [validate_with] in H; try discriminate; try congruence.
+      cbn [plain] in Hp. apply andb_true_iff in Hp as [Ht Hd]. apply N.eqb_eq in Ht. subst tg.
+      destruct (req && Net.is_nil d) eqn:R; [discriminate|].
+      assert (Hne : (0 =? fid + 1) = false) by (apply N.eqb_neq; lia). rewrite Hne in H. cbn [negb N.eqb] in H.
+      apply bind_ok in H as [d' [M H]]. apply bind_ok in H as [d'' [B H]]. injection H as <-.
+      cbn [goodb]. rewrite N.eqb_refl.
+      assert (Rn : req && Net.is_nil d'' = false).
+      { destruct req; [cbn in *|reflexivity]. apply is_nil_false. apply is_nil_false in R.
+        apply (dict_build_nonnil _ _ B). intro Hn. apply R. apply length_zero_iff_nil.
+        rewrite <- (map_res_length _ _ _ _ _ M), Hn. reflexivity. }
+      rewrite Rn. cbn [negb andb].
+      assert (F : Forall (fun kv => goodb orc f1 (fst kv) = true /\ goodb orc f2 (snd kv) = true) d'').
+      { apply (dict_build_acc_Forall (fun k => goodb orc f1 k = true) (fun x => goodb orc f2 x = true) d' [] d'' B); [constructor|].
+        apply map_res_Forall2 in M. apply plain_dict_Forall in Hd. clear R B Rn.
+        induction M as [|[k x] [k' x'] d d' Hab M IHM]; constructor.
+        - inversion Hd as [|? ? [Pk Px] Hd']; subst. cbn in Pk, Px, Hab.
+          apply bind_ok in Hab as [k2 [Ek Hab]]. apply bind_ok in Hab as [x2 [Ex Hab]]. injection Hab as <- <-.
+          cbn. split; [exact (IHf1 HF1 k k2 Pk Ek)|exact (IHf2 HF2 x x2 Px Ex)].
+        - inversion Hd; subst. now apply IHM. }
+      apply forallb_forall. intros kv Hkv. rewrite Forall_forall in F. destruct (F kv Hkv) as [A C]. now rewrite A, C.
+    - destruct x; [congruence|discriminate..].
+  Qed.
+
+  Lemma input_ok_validate_good : forall f y z, has_F13 f = false -> input_ok orc f y = true ->
+    validate_with orc f y = Ok z -> goodb orc f z = true.
+  Proof.
+    intros f y z HF Hi H. unfold input_ok in Hi. destruct (plain y) eqn:P; cbn [orb] in Hi.
+    - eapply validate_good; eassumption.
+    - pose proof (goodb_top_good orc _ _ _ Hi H) as G. now rewrite (goodb_fixed orc _ _ _ G H).
+  Qed.
+
+  Lemma on_pair_ok : forall (fk fv : pyval -> res pyval) k v r,
+    on_pair fk fv (k, v) = Ok r -> exists k' v', r = (k', v') /\ fk k = Ok k' /\ fv v = Ok v'.
+  Proof.
+    intros fk fv k v r H. cbn in H. apply bind_ok in H as [k' [A H]]. apply bind_ok in H as [v' [B H]].
+    injection H as <-. eauto.
+  Qed.
+
+  (* the guard of cf_validate never fires on the load route: what to_python builds from plain (document) data is plain or a
+     proxy of this field whose items are validated values -- outside the F13 region, where a validated item need not be a
+     fixed point of its field *)
+  Theorem to_python_good : forall f, has_F13 f = false -> forall xi x', plain xi = true ->
+    to_python_with orc f xi = Ok x' -> input_ok orc f x' = true.
+  Proof.
+    induction f; intros HF xi x' Hp H;
+      try (cbn in H; injection H as <-; unfold input_ok; now rewrite Hp).
+    - (* FBytes *) cbn in H. unfold bytes_to_python in H. destruct xi; try discriminate.
+      + injection H as <-. reflexivity.
+      + destruct enc.
+        * apply bind_ok in H as [b [E H]]. injection H as <-. unfold input_ok. cbn [plain].
+          unfold b64_decode_py in E. destruct (existsb _ s); [discriminate|].
+          destruct (b64_dec s) as [b0|] eqn:D.
+          -- injection E as <-. now rewrite (b64_dec_bytes_ok _ _ D).
+          -- destruct (forallb is_b64_char s); [destruct (_ =? 0)|]; discriminate.
+        * destruct (hex_dec s) as [b|] eqn:D; [|discriminate]. injection H as <-. unfold input_ok. cbn [plain].
+          now rewrite (hex_dec_bytes_ok _ _ D).
+    - (* FListT *) cbn [has_F13] in HF.
+      assert (G : forall l, forallb plain l = true ->
+                (do l1 <- Fields.map_res (to_python_with orc f) l ;; do l2 <- Fields.map_res (validate_with orc f) l1 ;;
+                 Ok (PList (fid + 1) l2)) = Ok x' -> input_ok orc (FListT fid req f) x' = true).
+      { intros l Hl G. apply bind_ok in G as [l1 [A G]]. apply bind_ok in G as [l2 [B G]]. injection G as <-.
+        unfold input_ok. cbn [plain goodb_top]. rewrite N.eqb_refl. cbn [andb].
+        replace ((fid + 1 =? 0) && forallb plain l2) with false by (symmetry; apply andb_false_iff; left; apply N.eqb_neq; lia).
+        cbn [orb]. apply map_res_Forall2 in A, B. rewrite forallb_forall in Hl. clear H.
+        revert l2 B. induction A as [|a b l l1 Hab A IHA]; intros l2 B; inversion B as [|? c ? l2' Hbc B']; subst; [reflexivity|].
+        cbn [forallb]. apply andb_true_iff. split.
+        - eapply input_ok_validate_good; [exact HF| |exact Hbc]. apply (IHf HF a b); [apply Hl; now left|exact Hab].
+        - apply IHA; [|exact B']. intros z Hz. apply Hl. now right. }
+      destruct xi as [| | | | | |tg l|l|tg d| |]; cbn [to_python_with] in H; try discriminate.
+      + injection H as <-. unfold input_ok. cbn [goodb_top forallb]. now rewrite N.eqb_refl, orb_true_r.
+      + cbn in Hp. apply andb_true_iff in Hp as [_ Hl]. exact (G l Hl H).
+      + exact (G l Hp H).
+    - (* FDictT *) cbn [has_F13] in HF. apply orb_false_iff in HF as [HF1 HF2].
+      destruct xi as [| | | | | |tg l|l|tg d| |]; cbn [to_python_with] in H; try discriminate.
+      + injection H as <-. unfold input_ok. cbn [goodb_top forallb]. now rewrite N.eqb_refl, orb_true_r.
+      + cbn [plain] in Hp. apply andb_true_iff in Hp as [_ Hd]. apply plain_dict_Forall in Hd.
+        apply bind_ok in H as [d1 [A H]]. apply bind_ok in H as [d2 [B H]]. apply bind_ok in H as [d3 [C H]].
+        apply bind_ok in H as [d4 [D H]]. injection H as <-.
+        assert (F1 : Forall (fun kv => input_ok orc f1 (fst kv) = true /\ input_ok orc f2 (snd kv) = true) d1).
+        { apply map_res_Forall2 in A. clear -A Hd IHf1 IHf2 HF1 HF2.
+          induction A as [|[k x] r d d1 Hab A IHA]; constructor.
+          - inversion Hd as [|? ? [Pk Px] Hd']; subst. cbn in Pk, Px.
+            destruct (on_pair_ok _ _ _ _ _ Hab) as (k' & v' & -> & Ek & Ev). cbn. split; [exact (IHf1 HF1 k k' Pk Ek)|exact (IHf2 HF2 x v' Px Ev)].
+          - inversion Hd; subst. now apply IHA. }
+        assert (F2 : Forall (fun kv => input_ok orc f1 (fst kv) = true /\ input_ok orc f2 (snd kv) = true) d2).
+        { apply (dict_build_acc_Forall (fun k => input_ok orc f1 k = true) (fun x => input_ok orc f2 x = true) d1 [] d2 B); [constructor|exact F1]. }
+        assert (F3 : Forall (fun kv => goodb orc f1 (fst kv) = true /\ goodb orc f2 (snd kv) = true) d3).
+        { apply map_res_Forall2 in C. clear -C F2 HF1 HF2.
+          induction C as [|[k x] r d2 d3 Hab C IHC]; constructor.
+          - inversion F2 as [|? ? [Pk Px] F2']; subst. cbn in Pk, Px.
+            destruct (on_pair_ok _ _ _ _ _ Hab) as (k' & v' & -> & Ek & Ev). cbn.
+            split; eapply input_ok_validate_good; eassumption.
+          - inversion F2; subst. now apply IHC. }
+        assert (F4 : Forall (fun kv => goodb orc f1 (fst kv) = true /\ goodb orc f2 (snd kv) = true) d4).
+        { apply (dict_build_acc_Forall (fun k => goodb orc f1 k = true) (fun x => goodb orc f2 x = true) d3 [] d4 D); [constructor|exact F3]. }
+        unfold input_ok. cbn [goodb_top]. rewrite N.eqb_refl. cbn [andb].
+        replace (forallb (fun kv => goodb orc f1 (fst kv) && goodb orc f2 (snd kv)) d4) with true; [apply orb_true_r|].
+        symmetry. apply forallb_forall. intros kv Hkv. rewrite Forall_forall in F4. destruct (F4 kv Hkv) as [X Y]. now rewrite X, Y.
+    - discriminate.
+  Qed.
+
+  (* hence on the load route the configuration's leaf validator IS Fields.validate_with *)
+  Corollary cf_validate_after_to_python : forall f xi x', has_F13 (fl_fld f) = false -> plain xi = true ->
+    cf_to_python orc f xi = Ok x' -> cf_validate orc f x' = validate_with orc (fl_fld f) x'.
+  Proof. intros f xi x' HF Hp H. unfold cf_validate. now rewrite (to_python_good _ HF _ _ Hp H). Qed.
+End G.
